@@ -166,9 +166,10 @@ class MQTTTransport(Transport):
         Return an MQTT topic, payload and qos-level as a tuple.
         """
         # "node_id;child_id;command;ack;message_type;payload\n"
-        partial_message, _, payload = decoded_message.rstrip().rpartition(";")
-        _, _, _, ack, _ = partial_message.split(";")
-        partial_topic = partial_message.replace(";", "/")
+        # The payload is the rest of the message and may contain the delimiter.
+        *topic_levels, payload = decoded_message.rstrip().split(";", 5)
+        _, _, _, ack, _ = topic_levels
+        partial_topic = "/".join(topic_levels)
 
         # prefix/node_id/child_id/command/ack/message_type : payload
         return f"{self.out_prefix}/{partial_topic}", payload, int(ack)
